@@ -38,10 +38,11 @@
 (*                       not a nil dereference in go-did [F5-C09-vm-null-  *)
 (*                       referenced]                                       *)
 (*   LaxDefects = {}     methods embedded in a verification relationship   *)
-(*                       obey the same id rules as verificationMethod [F20-C09]*)
+(*                       obey the same id rules as verificationMethod [F20-C09,*)
+(*                       repaired in the code: {} everywhere]              *)
 (* Design constants (TRUE = what the property needs and the code does; the *)
 (* FALSE variants exist so that TLC can show that the transaction universe *)
-(* and the reference SEE the class of defect: DidStore.amb.dev*.cfg must   *)
+(* and the reference SEE the class of defect: DidStore.hist.dev.*.cfg must   *)
 (* violate KeysChangeOnlyByAuthorized):                                    *)
 (*   ClockFirst          the versions of a DID follow the lamport clock    *)
 (*                       (event.before: clock, signing time, ref); FALSE:  *)
